@@ -868,6 +868,10 @@ def c01_pair(ctx, t1, t2, cases, corr=True):
     if exc is not None:
         case["clause"] = "t1 + delta raised " + type(exc).__name__
         ctx.fail(case, "t1 + Delta(DeepDiff(t1, t2)) raised " + repr(exc))
+    elif guard_ok and slots_rem and (cnt.n or not oeq(res, t2)):
+        # observation OBJ1 (DESIGN.md 7.1, "recorded but not filed"): Delta deletes a removed attribute with
+        # `del obj.__dict__[elem]`, which cannot work on an instance of a __slots__ class; counted, not a failure
+        ctx.count("obj_c01:OBJ1_slots_attribute_removed_not_applied")
     elif guard_ok:
         if not oeq(res, t2):
             case["clause"] = "round trip differs"
